@@ -715,6 +715,9 @@ def restore(tree, ref=None):
     if ref is None:
         return {}
     applied = {}
+    inlined = inline_new_helpers(tree, ref)
+    if inlined:
+        applied["<helpers put back>"] = (len(inlined), 0, True)
     for q, cf in _functions(tree).items():
         rf = ref["fns"].get(q)
         if rf is None or ast.dump(cf) == ref["dumps"][q]:
@@ -723,3 +726,351 @@ def restore(tree, ref=None):
         changed = r.function(cf, rf)
         applied[q] = (r.restored, r.kept, changed)          # (nodes may have been rebuilt even when nothing changed: the caller re-parses)
     return applied
+
+
+# ------------------------------------------------------------------------------------------------ helpers that the reference does not have
+def _pure_expr(e):
+    """Evaluating e has no effect and calls nothing (it may be evaluated again, or later, as long as what it reads is not rebound)."""
+    for n in ast.walk(e):
+        if isinstance(n, (ast.Call, ast.Await, ast.Yield, ast.YieldFrom, ast.NamedExpr, ast.Lambda, ast.ListComp, ast.SetComp, ast.GeneratorExp, ast.DictComp, ast.Starred)):
+            return False
+        if isinstance(n, ast.Subscript) and not isinstance(n.slice, ast.Constant):
+            return False
+    return True
+
+
+def _roots(e):
+    return {n.id for n in ast.walk(e) if isinstance(n, ast.Name)}
+
+
+def _local_names(fn):
+    """Names bound in fn's own scope (parameters excluded)."""
+    out = set()
+    todo = list(fn.body)
+    while todo:
+        n = todo.pop()
+        if isinstance(n, (ast.FunctionDef, ast.AsyncFunctionDef, ast.ClassDef)):
+            out.add(n.name)
+            continue
+        if isinstance(n, (ast.Lambda, ast.ListComp, ast.SetComp, ast.GeneratorExp, ast.DictComp)):
+            continue                                        # (their variables are their own)
+        if isinstance(n, ast.Name) and isinstance(n.ctx, (ast.Store, ast.Del)):
+            out.add(n.id)
+        if isinstance(n, ast.ExceptHandler) and n.name:
+            out.add(n.name)
+        todo.extend(ast.iter_child_nodes(n))
+    return out
+
+
+def _param_names(fn):
+    a = fn.args
+    return [x.arg for x in a.posonlyargs + a.args], [x.arg for x in a.kwonlyargs], (a.vararg.arg if a.vararg else None), (a.kwarg.arg if a.kwarg else None)
+
+
+class _Helper:
+    """A function of the current tree that the reference tree does not have, in a form that can be put back where it is called."""
+    def __init__(self, fn, kind):
+        self.fn, self.kind = fn, kind                       # kind: 'method' | 'static' | 'nested'
+        body = list(fn.body)
+        if body and isinstance(body[0], ast.Expr) and isinstance(body[0].value, ast.Constant) and isinstance(body[0].value.value, str):
+            body = body[1:]
+        self.body = body
+        pos, kwo, var, kw = _param_names(fn)
+        if kind == "method":
+            pos = pos[1:]
+        self.pos, self.kwonly, self.kwarg = pos, kwo, kw
+        self.ok = bool(body) and var is None and not fn.decorator_list[1:] and not any(isinstance(n, (ast.Yield, ast.YieldFrom, ast.Await, ast.Global, ast.Nonlocal)) for n in ast.walk(fn))
+        rets = [n for st in body for n in _walk_own(st) if isinstance(n, ast.Return)]
+        self.expr_only = len(body) == 1 and isinstance(body[0], ast.Return) and body[0].value is not None
+        self.tail_return = bool(rets) and len(rets) == 1 and rets[0] is body[-1]
+        self.no_return = not rets
+        if not (self.expr_only or self.tail_return or self.no_return):
+            self.ok = False
+        if any(isinstance(n, ast.Name) and n.id == fn.name for st in body for n in ast.walk(st)):
+            self.ok = False                                 # recursive
+        self.locals = _local_names(fn)
+        defaults = fn.args.defaults
+        self.defaults = dict(zip((pos + [])[len(pos) - len(defaults):], defaults)) if defaults else {}
+        for k, d in zip(fn.args.kwonlyargs, fn.args.kw_defaults):
+            if d is not None:
+                self.defaults[k.arg] = d
+        if kw is not None:
+            # **kw may only be forwarded, once, as **kw of one call
+            uses = [n for st in body for n in ast.walk(st) if isinstance(n, ast.Name) and n.id == kw]
+            fw = [k for st in body for c in ast.walk(st) if isinstance(c, ast.Call) for k in c.keywords if k.arg is None and isinstance(k.value, ast.Name) and k.value.id == kw]
+            if len(uses) != 1 or len(fw) != 1:
+                self.ok = False
+
+    def bind(self, call):
+        """param -> argument expression for this call, plus the extra keywords for **kw; None if the call cannot be matched."""
+        if any(isinstance(a, ast.Starred) for a in call.args) or any(k.arg is None for k in call.keywords) or len(call.args) > len(self.pos):
+            return None
+        m = dict(zip(self.pos, call.args))
+        extra = []
+        for k in call.keywords:
+            if k.arg in self.pos or k.arg in self.kwonly:
+                if k.arg in m:
+                    return None
+                m[k.arg] = k.value
+            elif self.kwarg is not None:
+                extra.append(k)
+            else:
+                return None
+        for p in self.pos + self.kwonly:
+            if p not in m:
+                if p not in self.defaults or not isinstance(self.defaults[p], ast.Constant):
+                    return None
+                m[p] = self.defaults[p]
+        return m, extra
+
+
+def _walk_own(node):
+    todo = [node]
+    while todo:
+        n = todo.pop()
+        yield n
+        for ch in ast.iter_child_nodes(n):
+            if not isinstance(ch, (ast.FunctionDef, ast.AsyncFunctionDef, ast.Lambda, ast.ClassDef)):
+                todo.append(ch)
+
+
+class _ParamSubst(ast.NodeTransformer):
+    def __init__(self, m, kwarg, extra):
+        self.m, self.kwarg, self.extra = m, kwarg, extra
+
+    def visit_Name(self, node):
+        if node.id in self.m and isinstance(node.ctx, ast.Load):
+            return copy.deepcopy(self.m[node.id])
+        return node
+
+    def visit_Call(self, node):
+        self.generic_visit(node)
+        if self.kwarg is not None:
+            kws = []
+            for k in node.keywords:
+                if k.arg is None and isinstance(k.value, ast.Name) and k.value.id == self.kwarg:
+                    kws.extend(copy.deepcopy(self.extra))
+                else:
+                    kws.append(k)
+            node.keywords = kws
+        return node
+
+
+def _instantiate(h, call, caller_locals, caller_fn):
+    """Body of helper h for this call (statements, value expression or None); None if putting it back here could change behaviour."""
+    b = h.bind(call)
+    if b is None:
+        return None
+    m, extra = b
+    stored = {n.id for st in h.body for n in ast.walk(st) if isinstance(n, ast.Name) and not isinstance(n.ctx, ast.Load)}
+    for p, a in m.items():
+        if p in stored:
+            return None                                     # the helper rebinds its parameter
+        uses = sum(1 for st in h.body for n in ast.walk(st) if isinstance(n, ast.Name) and n.id == p)
+        if not _pure_expr(a) and not (uses <= 1 and h.expr_only and len(m) == 1):
+            return None
+        if _roots(a) & stored:
+            return None                                     # the body rebinds something the argument reads
+    for k in extra:
+        if not _pure_expr(k.value):
+            return None
+    if h.kind != "nested":
+        comp_vars = {n.id for st in h.body for c in ast.walk(st) if isinstance(c, ast.comprehension) for n in ast.walk(c.target) if isinstance(n, ast.Name)}
+        free = {n.id for st in h.body for n in ast.walk(st) if isinstance(n, ast.Name)} - set(m) - h.locals - comp_vars - ({h.kwarg} if h.kwarg else set())
+        if h.kind == "method":
+            free.discard("self")                            # called through self: the same object
+        if free & caller_locals:
+            return None                                     # a caller's local would capture a name the helper reads from the module
+    if (h.locals - stored) or (h.locals & caller_locals):
+        # the helper's own locals would collide with the caller's (or are bound in ways not handled): keep the call
+        if h.locals & caller_locals:
+            return None
+    ps = _ParamSubst(m, h.kwarg, extra)
+    body = [ps.visit(copy.deepcopy(st)) for st in h.body]
+    if h.expr_only:
+        return [], body[0].value
+    if h.tail_return:
+        return body[:-1], body[-1].value
+    return body, None
+
+
+def inline_new_helpers(tree, ref):
+    """Put helpers that the reference tree does not have back where they are called (methods called through self / the class, nested functions called
+    by name). Inlining a non-recursive function whose arguments are effect-free expressions, whose names mean the same in the caller, and whose
+    only `return` is its last statement preserves behaviour. Returns the names inlined."""
+    done = []
+    classes = {c.name: c for c in tree.body if isinstance(c, ast.ClassDef)}
+
+    def ancestors(c):
+        out, todo = [], [c]
+        while todo:
+            x = todo.pop()
+            for b in x.bases:
+                bn = b.id if isinstance(b, ast.Name) else None
+                if bn in classes and classes[bn] not in out:
+                    out.append(classes[bn])
+                    todo.append(classes[bn])
+        return out
+
+    own_helpers = {}
+    for cls in [None] + list(classes.values()):
+        owner = tree if cls is None else cls
+        prefix = "" if cls is None else cls.name + "."
+        hs = {}
+        for st in owner.body:
+            if isinstance(st, ast.FunctionDef) and prefix + st.name not in ref["fns"]:
+                decs = [ast.unparse(d) for d in st.decorator_list]
+                kind = "static" if (cls is None or decs == ["staticmethod"]) else ("method" if not decs else None)
+                if kind:
+                    h = _Helper(st, kind)
+                    if h.ok:
+                        hs[st.name] = h
+        own_helpers[cls.name if cls else None] = hs
+    all_used = set()
+    for cls in [None] + list(classes.values()):
+        owner = tree if cls is None else cls
+        prefix = "" if cls is None else cls.name + "."
+        helpers = dict(own_helpers[None]) if cls is not None else {}
+        if cls is not None:
+            for a in reversed(ancestors(cls)):
+                if not any(isinstance(st, ast.FunctionDef) and st.name in own_helpers[a.name] for st in cls.body):
+                    helpers.update(own_helpers[a.name])
+            own_names = {st.name for st in cls.body if isinstance(st, ast.FunctionDef)}
+            helpers = {k: v for k, v in helpers.items() if k not in own_names or k in own_helpers[cls.name]}
+        helpers.update(own_helpers[cls.name if cls else None])
+        for fn in [st for st in owner.body if isinstance(st, ast.FunctionDef)]:
+            if fn.name in own_helpers[cls.name if cls else None]:
+                continue
+            local_h = dict(helpers)
+            rfn = ref["fns"].get(prefix + fn.name)
+            rnested = {n.name for n in ast.walk(rfn) if isinstance(n, ast.FunctionDef)} if rfn is not None else set()
+            nested_defs = []
+            if rfn is not None:
+                for n in ast.walk(fn):
+                    if isinstance(n, ast.FunctionDef) and n is not fn and n.name not in rnested:
+                        h = _Helper(n, "nested")
+                        if h.ok:
+                            local_h[n.name] = h
+                            nested_defs.append(n)
+            if not local_h:
+                continue
+            used = _inline_in_function(fn, local_h, cls)
+            if used:
+                all_used |= {local_h[u].fn for u in used}
+                done.extend(prefix + fn.name + " <- " + u for u in sorted(used))
+                # a nested helper that is no longer called is dropped, so that the function can match the reference again
+                for nd in nested_defs:
+                    if nd.name in used and not any(isinstance(n, ast.Name) and n.id == nd.name for n in ast.walk(fn)):
+                        _remove_stmt(fn, nd)
+    # a helper method that nothing refers to any more is dropped as well (it is not part of the reference's vocabulary)
+    for hfn in all_used:
+        refs = sum(1 for n in ast.walk(tree) if (isinstance(n, ast.Attribute) and n.attr == hfn.name) or (isinstance(n, ast.Name) and n.id == hfn.name))
+        if refs == 0:
+            for owner in [tree] + list(classes.values()):
+                if any(x is hfn for x in owner.body):
+                    owner.body[:] = [x for x in owner.body if x is not hfn] or [ast.Pass()]
+    return done
+
+
+def _remove_stmt(fn, node):
+    for n in ast.walk(fn):
+        for f in ("body", "orelse", "finalbody"):
+            blk = getattr(n, f, None)
+            if isinstance(blk, list) and any(x is node for x in blk):
+                blk[:] = [x for x in blk if x is not node] or [ast.Pass()]
+                return
+
+
+def _callee(call, helpers, cls):
+    f = call.func
+    if isinstance(f, ast.Name) and f.id in helpers and helpers[f.id].kind in ("nested", "static"):
+        return helpers[f.id]
+    if isinstance(f, ast.Attribute) and isinstance(f.value, ast.Name) and f.attr in helpers:
+        h = helpers[f.attr]
+        if h.kind == "method" and f.value.id == "self":
+            return h
+        if h.kind == "static" and cls is not None and f.value.id in ("self", "cls", cls.name):
+            return h
+    return None
+
+
+def _inline_in_function(fn, helpers, cls):
+    used = set()
+    caller_locals = _local_names(fn) | set(sum([_param_names(fn)[0], _param_names(fn)[1]], []))
+
+    def block(stmts):
+        out = []
+        for st in stmts:
+            for f in ("body", "orelse", "finalbody"):
+                blk = getattr(st, f, None)
+                if isinstance(blk, list) and blk and isinstance(blk[0], ast.stmt) and not isinstance(st, (ast.FunctionDef, ast.ClassDef)):
+                    setattr(st, f, block(blk))
+            if isinstance(st, ast.Try):
+                for hd in st.handlers:
+                    hd.body = block(hd.body)
+            # statement forms: h(..) ; x = h(..) ; return h(..)
+            call = None
+            if isinstance(st, ast.Expr) and isinstance(st.value, ast.Call):
+                call = st.value
+            elif isinstance(st, ast.Assign) and isinstance(st.value, ast.Call):
+                call = st.value
+            elif isinstance(st, ast.AugAssign) and isinstance(st.value, ast.Call):
+                call = st.value
+            elif isinstance(st, ast.Return) and isinstance(st.value, ast.Call):
+                call = st.value
+            h = _callee(call, helpers, cls) if call is not None else None
+            if h is not None and not h.expr_only:
+                inst = _instantiate(h, call, caller_locals, fn)
+                if inst is not None:
+                    pre, val = inst
+                    used.add(h.fn.name)
+                    out.extend(pre)
+                    if isinstance(st, ast.Expr):
+                        if val is not None and not _pure_expr(val):
+                            out.append(ast.Expr(val))
+                    elif val is not None:
+                        new = copy.copy(st)
+                        new.value = val
+                        out.append(new)
+                    else:
+                        new = copy.copy(st)
+                        new.value = ast.Constant(None)
+                        out.append(new)
+                    continue
+            # expression helpers anywhere in the statement's own expressions
+            out.append(_ExprInline(helpers, cls, caller_locals, fn, used).visit_own(st))
+        return out
+
+    fn.body = block(fn.body)
+    return used
+
+
+class _ExprInline(ast.NodeTransformer):
+    def __init__(self, helpers, cls, caller_locals, fn, used):
+        self.helpers, self.cls, self.caller_locals, self.fn, self.used = helpers, cls, caller_locals, fn, used
+
+    def visit_own(self, st):
+        for f, v in list(ast.iter_fields(st)):
+            if f in ("body", "orelse", "finalbody", "handlers"):
+                continue
+            if isinstance(v, ast.AST):
+                setattr(st, f, self.visit(v))
+            elif isinstance(v, list):
+                setattr(st, f, [self.visit(x) if isinstance(x, ast.AST) else x for x in v])
+        return st
+
+    def visit_FunctionDef(self, node):
+        return node
+
+    def visit_Lambda(self, node):
+        return node
+
+    def visit_Call(self, node):
+        self.generic_visit(node)
+        h = _callee(node, self.helpers, self.cls)
+        if h is not None and h.expr_only:
+            inst = _instantiate(h, node, self.caller_locals, self.fn)
+            if inst is not None:
+                self.used.add(h.fn.name)
+                return inst[1]
+        return node
